@@ -583,11 +583,33 @@ func plannedStateDiff(a, b map[int]string) string {
 	return strings.Join(l, "+")
 }
 
+// removableByVehicleUnplan: the stop is not fixed and neither is the root plan unit it belongs to (a unit is fixed as soon
+// as one of its stops is, a unit of units as soon as one of its members is): what SolutionVehicle.Unplan takes off.
+func removableByVehicleUnplan(sol nextroute.Solution, st nextroute.SolutionStop) bool {
+	if st.IsFirst() || st.IsLast() || st.IsFixed() {
+		return false
+	}
+	mu := st.PlanStopsUnit().ModelPlanUnit()
+	for {
+		p, ok := mu.PlanUnitsUnit()
+		if !ok {
+			break
+		}
+		mu = p
+	}
+	if su := sol.SolutionPlanUnit(mu); su != nil && su.IsFixed() {
+		return false
+	}
+	return true
+}
+
 func unitRole(u nextroute.SolutionPlanUnit) string {
 	kind := "stops"
 	if uu, ok := u.(nextroute.SolutionPlanUnitsUnit); ok {
 		if uu.ModelPlanUnitsUnit().PlanOneOf() {
 			kind = "oneof"
+		} else if !uu.ModelPlanUnitsUnit().SameVehicle() {
+			kind = "allloose" // plan-all over several vehicles (model API only)
 		} else {
 			kind = "all"
 		}
@@ -597,6 +619,9 @@ func unitRole(u nextroute.SolutionPlanUnit) string {
 	if p, ok := u.ModelPlanUnit().PlanUnitsUnit(); ok {
 		if p.PlanOneOf() {
 			return kind + "-member-of-oneof"
+		}
+		if !p.SameVehicle() {
+			return kind + "-member-of-allloose"
 		}
 		return kind + "-member-of-all"
 	}
@@ -646,6 +671,15 @@ func runHist(o *Out, thorough bool, withUC bool) {
 		hc := &histCase{Case: c, Seed: rng.Int63()}
 		if withUC {
 			hc.UC = genUserConstraint(rng, c)
+		}
+		if withUC && ci%6 == 4 {
+			// a group whose members can only be removed in reverse order, under a user constraint that lets two stops on
+			// a vehicle and rejects the third: the group move fails at its last member and must be rolled back
+			// (the search for the group's best move executes the members, so the rejection has to come from a state that
+			// changed in between: these cases keep the move and execute it after other units were planned — seed ≡ 0 mod 4)
+			p2 := Profile{MaxStops: 5 + rng.Intn(4), MaxVehicles: 1, GroupTrap: true, NonMetric: rng.Intn(2) == 0}
+			c = genCase(rng, p2)
+			hc = &histCase{Case: c, Seed: rng.Int63() &^ 3, UC: &userConstraint{Level: "vehicle", Kind: "count", K: 3 + rng.Intn(2), Temporal: rng.Intn(2) == 0}}
 		}
 		if replayFile != "" {
 			hc = loadReplayHist(replayFile)
@@ -899,6 +933,40 @@ func runHistCase(o *Out, ci int, hc *histCase, nops int, distinct map[string]boo
 	pendingRole := ""
 	removedSince := false
 	fillLeft := 0
+	// group trap (histuc): the group's best move is computed on the empty vehicle and kept; K-2 other units are planned
+	// on the vehicle; then the kept move is executed: its last member exceeds the user constraint's stop limit and the
+	// earlier members have to be taken off again, which the capacity constraint allows in reverse order only
+	if uc != nil && uc.Level == "vehicle" && uc.Kind == "count" {
+		for _, f := range c.Features {
+			if f != "group-trap" || len(c.Groups) == 0 {
+				continue
+			}
+			want := map[string]bool{}
+			for _, si := range c.Groups[len(c.Groups)-1] {
+				want[c.Stops[si].ID] = true
+			}
+			for _, u := range unitsOf(sol, func(u nextroute.SolutionPlanUnit) bool { return !u.IsPlanned() && !u.IsFixed() }) {
+				if _, nested := u.(nextroute.SolutionPlanUnitsUnit); !nested || len(unitStopIDs(u)) != len(want) {
+					continue
+				}
+				all := true
+				for _, id := range unitStopIDs(u) {
+					if !want[id] {
+						all = false
+					}
+				}
+				if !all {
+					continue
+				}
+				mv := sol.BestMove(ctx, u)
+				if mv.IsExecutable() {
+					pending, pendingUnit, pendingRole = mv, u, unitRole(u)
+					fillLeft = uc.K - 2
+					o.Count("group-trap-move-kept")
+				}
+			}
+		}
+	}
 	// histw: when the instance has a neutral detour (a, x, b), a and b are first planned next to each other at the end
 	// of the first vehicle, so that placements of x's unit between them (an unchanged planned stop between two inserted
 	// stops) are among those the estimate sweep enumerates
@@ -974,6 +1042,10 @@ func runHistCase(o *Out, ci int, hc *histCase, nops int, distinct map[string]boo
 			}
 			if e != nil {
 				violate("C16", "engine-error", "stale-Execute", e.Error())
+				// an operation that ends with an error must not leave the solution half changed either
+				if after := snapOf(b, sol); !snapSame(after, before) {
+					violate("C07", "execute-error-changed-solution", role+"|"+changedParts(before, after)+"|stale", e.Error()+" ; "+diffSnap(before, after))
+				}
 				return
 			}
 			lk.afterExecute(o, sol, ok)
@@ -982,6 +1054,7 @@ func runHistCase(o *Out, ci int, hc *histCase, nops int, distinct map[string]boo
 			}
 			collLine = execLine(mv, ok)
 			o.Count("stale-execute:" + fmt.Sprintf("ok=%v", ok))
+			o.Count("stale-execute(" + role + "):" + fmt.Sprintf("ok=%v", ok))
 			if !ok {
 				rejectedKinds["stale-execute-"+role] = true
 				if after := snapOf(b, sol); !snapSame(after, before) {
@@ -997,7 +1070,7 @@ func runHistCase(o *Out, ci int, hc *histCase, nops int, distinct map[string]boo
 				o.Count("tainted-by:accepted-stale-move")
 			}
 		case kind < 40: // best move
-			unpl := unitsOf(sol, func(u nextroute.SolutionPlanUnit) bool { return !u.IsPlanned() && !u.IsFixed() })
+			unpl := unitsOf(sol, func(u nextroute.SolutionPlanUnit) bool { return !u.IsPlanned() && !u.IsFixed() && u != pendingUnit })
 			if len(unpl) == 0 {
 				continue
 			}
@@ -1319,7 +1392,7 @@ func runHistCase(o *Out, ci int, hc *histCase, nops int, distinct map[string]boo
 			var vus []int
 			seenU := map[int]bool{}
 			for _, st := range v.SolutionStops() {
-				if !st.IsFirst() && !st.IsLast() && !st.IsFixed() {
+				if removableByVehicleUnplan(sol, st) {
 					id := cu(st.PlanStopsUnit().ModelPlanUnit().Index())
 					if !seenU[id] {
 						seenU[id] = true
@@ -1328,7 +1401,7 @@ func runHistCase(o *Out, ci int, hc *histCase, nops int, distinct map[string]boo
 				}
 			}
 			if uc != nil && len(vus) > 0 && rng.Intn(2) == 0 {
-				forbid.sig = routeSigWithout(v, func(st nextroute.SolutionStop) bool { return !st.IsFixed() })
+				forbid.sig = routeSigWithout(v, func(st nextroute.SolutionStop) bool { return removableByVehicleUnplan(sol, st) })
 				o.Count("forbid:vehicle-unplan")
 			}
 			eov := engC.beforeVehicleUnplan(sol, v)
@@ -1365,7 +1438,7 @@ func runHistCase(o *Out, ci int, hc *histCase, nops int, distinct map[string]boo
 			if ok && n > 0 {
 				left := 0
 				for _, s := range v.SolutionStops() {
-					if !s.IsFirst() && !s.IsLast() && !s.IsFixed() {
+					if removableByVehicleUnplan(sol, s) {
 						left++
 					}
 				}
@@ -1455,9 +1528,7 @@ func runHistCase(o *Out, ci int, hc *histCase, nops int, distinct map[string]boo
 				o.Violate(Violation{Property: "C18", Clause: "check-changed-solution", Sig: "C18|check-changed-solution|" + culprit + "|" + changedParts(before, after) + "|" + verb,
 					Detail: diffSnap(before, after), Replay: hc})
 			}
-			if uc == nil {
-				checkTruthful(o, hc, sol, verb, violate)
-			}
+			checkTruthful(o, hc, sol, verb, violate)
 		}
 		hc.Ops = append(hc.Ops, opDesc)
 		observe(sol, opDesc)
@@ -1931,12 +2002,13 @@ func separatesOwnDirectPair(order []nextroute.SolutionStop, gaps []int) bool {
 
 // checkTruthful: a unit the check reports as plannable can be planned on that solution (on a copy).
 func checkTruthful(o *Out, hc *histCase, sol nextroute.Solution, verb string, violate func(prop, clause, sigExtra, detail string)) {
-	out, err := check.SolutionCheck(sol, check.Options{Verbosity: "medium", Duration: 5 * time.Second})
+	// at the verbosity the history drew (the three levels take different paths through the check); under a user
+	// constraint with an optimistic estimate failed moves are expected (C19), the truthfulness of "plannable" is not
+	out, err := check.SolutionCheck(sol, check.Options{Verbosity: verb, Duration: 5 * time.Second})
 	if err != nil {
 		return
 	}
-	_ = verb
-	if out.Summary.MovesFailed > 0 || out.Summary.PlanUnitsBestMoveFailed > 0 {
+	if hc.UC == nil && (out.Summary.MovesFailed > 0 || out.Summary.PlanUnitsBestMoveFailed > 0) {
 		violate("C09", "check-reports-failed-moves", "check", fmt.Sprintf("check summary: moves_failed=%d plan_units_best_move_failed=%d",
 			out.Summary.MovesFailed, out.Summary.PlanUnitsBestMoveFailed))
 	}
@@ -1968,6 +2040,19 @@ func checkTruthful(o *Out, hc *histCase, sol nextroute.Solution, verb string, vi
 			if e == nil && ok {
 				planned = true
 				break
+			}
+			if hc.UC != nil {
+				// under a user constraint with an optimistic estimate the single best move may be rejected where another
+				// placement is accepted (the check probes vehicle by vehicle): decide by trying EVERY placement
+				switch canBePlannedSomewhere(sol, idx) {
+				case 1:
+					planned = true
+				case -1:
+					found = false // too many placements to enumerate: no verdict
+				}
+				if planned || !found {
+					break
+				}
 			}
 		}
 		if found && !planned {
@@ -2185,4 +2270,48 @@ func stopGenCorrespondence(o *Out, mv nextroute.SolutionMoveStops, v nextroute.S
 	o.Op(fmt.Sprintf("sgen %s %s %s %s %s", strings.Join(route, ","), strings.Join(ins, ","), strings.Join(poss, ","), b01(a), b01(b)),
 		"sgen "+strings.Join(out, ",")+" pos=1")
 	o.Count(fmt.Sprintf("sgen-correspondence:inserted=%d", len(ins)))
+}
+
+// canBePlannedSomewhere: 1 if some placement of the idx-th unplanned unit (a stops-unit) executes successfully on a copy
+// of the solution, 0 if none does, -1 if there are too many placements to try them all.
+func canBePlannedSomewhere(sol nextroute.Solution, idx int) int {
+	probe := sol.Copy()
+	pu, ok := probe.UnPlannedPlanUnits().SolutionPlanUnits()[idx].(nextroute.SolutionPlanStopsUnit)
+	if !ok {
+		return -1
+	}
+	n := len(pu.SolutionStops())
+	total := 0
+	for _, v := range probe.Vehicles() {
+		total += len(combos(n, len(v.SolutionStops())-1))
+	}
+	norders := len(allowedOrders(pu))
+	if n > 3 || total*norders > 400 {
+		return -1
+	}
+	for vi := range probe.Vehicles() {
+		m := len(probe.Vehicles()[vi].SolutionStops()) - 1
+		for _, gaps := range combos(n, m) {
+			for oi := 0; oi < norders; oi++ {
+				cp := sol.Copy()
+				u := cp.UnPlannedPlanUnits().SolutionPlanUnits()[idx].(nextroute.SolutionPlanStopsUnit)
+				orders := allowedOrders(u)
+				if oi >= len(orders) {
+					continue
+				}
+				target := cp.Vehicles()[vi].SolutionStops()
+				if splitsDirectPair(target, gaps) || separatesOwnDirectPair(orders[oi], gaps) {
+					continue
+				}
+				mv, err := moveAt(u, orders[oi], target, gaps)
+				if err != nil || mv == nil || !mv.IsExecutable() {
+					continue
+				}
+				if ok, e := mv.Execute(context.Background()); e == nil && ok {
+					return 1
+				}
+			}
+		}
+	}
+	return 0
 }
